@@ -139,6 +139,40 @@ def witness(cfg: CFG, prev, at: Tuple[int, str], last_edge: Tuple[int, str]) -> 
 
 
 # ---------------------------------------------------------------------------
+def completed_records_kept(ctx):
+    """R05.13.  The cursor `RunningState.step` is the column the step in progress writes to; it is advanced after the update
+    returns, so columns below it hold the records of completed steps.  Every column store in a method of RunningState is classified by
+    its column index: `self.step` (the record in progress: append), a whole-buffer reset (clear), or `self.step - k`, k >= 1 - a
+    completed record.  The last kind is a violation when the method is called from anywhere in the package."""
+    repo = ctx.repo
+    RS = repo.cls(RUNNER, "RunningState")
+    from ..callgraph import CallGraph
+    cg = CallGraph(repo)
+    called = {h for outs in cg.edges.values() for h in outs}
+    n = 0
+    for name, m in RS.methods.items():
+        for x in ast.walk(m.node):
+            if not (isinstance(x, ast.Subscript) and isinstance(x.ctx, ast.Store)):
+                continue
+            sl = x.slice
+            col = sl.elts[1] if isinstance(sl, ast.Tuple) and len(sl.elts) == 2 else None
+            if col is None:
+                continue
+            n += 1
+            below = isinstance(col, ast.BinOp) and isinstance(col.op, ast.Sub) and norm(col.left).endswith(".step") \
+                and isinstance(col.right, ast.Constant) and isinstance(col.right.value, int) and col.right.value >= 1
+            is_called = m.fq in called
+            ctx.ob("R05.13", f"RunningState.{name}: column store `{norm(x)}` does not touch a completed record", not (below and is_called),
+                   detail={"column": norm(col), "called": is_called}, where=m.fq, loc=loc(m, x), construct=f"column store {norm(x)} in RunningState.{name}",
+                   message=f"RunningState.{name} stores into column `{norm(col)}`: the cursor points at the record in progress, so this is the record of the "
+                           "last completed step",
+                   consequence="a per-step record (dt, probe potentials and phases, screening iterations) of a completed step is erased: the frame written next has a "
+                               "hole (dt = 0 is dropped by the reader as padding), the frame time no longer equals the sum of the recorded steps and "
+                               "Solution.times disagrees with the frame labels")
+    if n < 1:
+        raise AnalysisError("no column store found in RunningState (append writes `values[name][:, self.step]` today)")
+
+
 def check(ctx):
     repo = ctx.repo
     ctx.rule("R05.12", "the per-step dt record and the clock use the dt of the accepted solve (shared with C12 R12.3/R12.4)", 5)
@@ -158,6 +192,8 @@ def check(ctx):
     ctx.rule("R05.6", "reported frame times are exclusive prefix sums of dt (frame s <-> sum of the first s steps)", 1)
     ctx.rule("R05.7", "the reader's dt > 0 mask only drops unfilled buffer tail: buffers are zero-initialised", 2)
     frs = repo.func(RUNNER, "Runner._run_stage")
+    ctx.rule("R05.13", "records of completed steps are never rewritten: outside clear(), no method of the record buffer stores into a column below the cursor", 1)
+    completed_records_kept(ctx)
 
     loop_rules(ctx, frs)
     records(ctx, frs)
